@@ -621,12 +621,16 @@ func init() {
 			rc := &RunConfig{Property: "C07", Profile: "stress", Seed: seed, Ctl: sampleCtl(r), MapOrder: r.IntN(2) == 0,
 				Lagfree: r.IntN(3) == 0, MidSched: r.IntN(2) == 0}
 			rc.Ctl.TCPConfigMap = r.IntN(5) == 0
-			w := map[string]int{"pod_vanish": 3}
+			w := map[string]int{"pod_vanish": 4}
 			for k, v := range defaultWeights {
 				w[k] = v
 			}
+			var force []string
+			if r.IntN(3) == 0 {
+				force = []string{"assign-backend-server-id"}
+			}
 			rc.World, rc.Ops = GenerateRun(seed, GenOptions{Sparse: r.IntN(3) == 0, ExcludeIngressKeys: []string{"waf", "cert-signer"}, MinOps: mn, MaxOps: mx, TCPConfigMap: rc.Ctl.TCPConfigMap,
-				QuiesceEvery: pickInt(r, 3, 6), KeysPerRun: pickInt(r, 5, 9, 14), W: w})
+				QuiesceEvery: pickInt(r, 3, 6), KeysPerRun: pickInt(r, 5, 9, 14), W: w, ForceIngressKeys: force})
 			return rc
 		}})
 	// static worlds: what only a history can break is lifted (strict-host among them)
